@@ -29,6 +29,7 @@ type AvahiProvider struct {
 
 	autoReconnect   bool
 	manualShutdown  bool
+	shutdownCount   uint // counts the manual shutdowns: a reconnect loop started before one ends with it
 	setupSuccessful bool
 	listenerRunning bool
 
@@ -127,6 +128,7 @@ func (a *AvahiProvider) start(autoReconnect bool, cb api.MdnsResolveCB) bool {
 func (a *AvahiProvider) Shutdown() {
 	a.mux.Lock()
 	a.manualShutdown = true
+	a.shutdownCount++
 
 	if !a.setupSuccessful {
 		a.mux.Unlock()
@@ -251,17 +253,20 @@ func (a *AvahiProvider) avahiCallback(event avahi.Event) {
 	if a.mdnsServiceData != nil {
 		serviceData = a.mdnsServiceData
 	}
+	shutdownCount := a.shutdownCount
 	a.mux.Unlock()
 
 	// try to reconnect until successull
-	go a.attemptReconnect(cb, serviceData)
+	go a.attemptReconnect(cb, serviceData, shutdownCount)
 }
 
 // attempt to reconnect to the avahi daemon endlessly
-func (a *AvahiProvider) attemptReconnect(cb api.MdnsResolveCB, serviceData *mdnsServiceData) {
+func (a *AvahiProvider) attemptReconnect(cb api.MdnsResolveCB, serviceData *mdnsServiceData, shutdownCount uint) {
 	for {
 		a.mux.Lock()
-		isManualShutdown := a.manualShutdown
+		// a manual shutdown ends this loop for good, also if the provider was started again meanwhile:
+		// that start made a connection of its own
+		isManualShutdown := a.manualShutdown || a.shutdownCount != shutdownCount
 		a.mux.Unlock()
 		if isManualShutdown {
 			return
@@ -270,6 +275,10 @@ func (a *AvahiProvider) attemptReconnect(cb api.MdnsResolveCB, serviceData *mdns
 		<-time.After(time.Second)
 
 		a.mux.Lock()
+		if a.shutdownCount != shutdownCount {
+			a.mux.Unlock()
+			return
+		}
 		started := a.start(true, cb)
 		a.mux.Unlock()
 		if !started {
